@@ -34,7 +34,7 @@ def unifying_lookalike(rng):
 
 
 def gen_case(rng, ctx):
-    cls, ds = gen.dataset(rng, classes="D1 D2 D3 D3 D4 D5 D6 D6 D7 D8 D17 D17 D16", nmax=8, mmax=7)
+    cls, ds = gen.dataset(rng, classes="D1 D2 D3 D3 D4 D5 D6 D6 D7 D8 D17 D17 D16 D18", nmax=8, mmax=7)
     ds = libx.normalise_raw(ds)
     which = rng.random()
     if which < 0.12:
